@@ -29,6 +29,7 @@ func runC06(c *Ctx) {
 	c06R7(c)
 	c06R8(c)
 	c06R9(c)
+	msgNotDropped(c, c.R.Rule("R10", "K4 no message forgotten (v1): every stream node function that receives a *Message sends it on, hands it to another function, acks it or nacks it on every path before it exits or receives the next one", 8))
 }
 
 // deferredClosures returns the defer instructions of fn whose deferred function
